@@ -532,7 +532,9 @@ def selftest(ctx, pool):
     for w, want in ((b"hang", "hang"), (b"sleep", "hang"), (b"segv", "crash"), (b"die", "exit"), (b"alloc", "memory"), (b"exit", "non-exception"),
                     (b"rss", "rss")):
         t0 = time.time()
-        r = pool.one(128, w, timeout=2.0)
+        # the two misbehaviours that must run into the limit get a short one; the others only have to finish and get a
+        # generous one (touching 200 MB took more than 2 s on a loaded machine: the self-test then misreported a hang)
+        r = pool.one(128, w, timeout=2.0 if w in (b"hang", b"sleep") else 30.0)
         got = r["status"]
         if w in (b"hang", b"sleep"):
             res[w.decode() + "_detected_after_s"] = round(time.time() - t0 - 0.3, 1)
